@@ -715,6 +715,9 @@ pub struct Families {
     pub lookup: bool,
     pub asserts: bool,
     pub reduce: bool,
+    /// split_le_base with bases 3/4/8 (BaseSumGate<B>, B != 2, is not in DefaultGateSerializer)
+    #[serde(default)]
+    pub split_base: bool,
 }
 
 impl Families {
@@ -731,6 +734,7 @@ impl Families {
             lookup: r.chance(1, 4),
             asserts: r.chance(1, 3),
             reduce: r.chance(1, 4),
+            split_base: true,
         };
         if !(f.arith || f.ext || f.bits || f.logic || f.ra || f.exp || f.hash || f.lookup || f.reduce) {
             f.arith = true;
@@ -738,7 +742,7 @@ impl Families {
         f
     }
     pub fn all() -> Families {
-        Families { arith: true, ext: true, bits: true, logic: true, ra: true, exp: true, hash: true, merkle: true, lookup: true, asserts: true, reduce: true }
+        Families { arith: true, ext: true, bits: true, logic: true, ra: true, exp: true, hash: true, merkle: true, lookup: true, asserts: true, reduce: true, split_base: true }
     }
 }
 
@@ -961,14 +965,14 @@ pub fn gen_program(r: &mut Rng, cfg: &CircuitConfig, fam: &Families, max_ops: us
                             g.push(Op::LeSum(sel));
                         }
                     }
-                    2 => {
+                    2 if fam.split_base => {
                         let base = *g.r.pick(&[3usize, 4, 8]);
                         let limbs = g.r.range(1, if base == 8 { 20 } else { 30 });
                         let bits = ((limbs as f64) * (base as f64).log2()).floor() as usize;
                         let x = g.small(bits.min(62));
                         g.push(Op::SplitBase(x, base, limbs));
                     }
-                    3 => {
+                    2 | 3 => {
                         let n = *g.r.pick(&[1usize, 8, 16, 32, 48, 63]);
                         let x = g.small(n);
                         g.push(Op::RangeCheck(x, n));
